@@ -84,10 +84,10 @@ def make_scratch(files):
     return scratch, dst, None
 
 
-def run(pid, tier="quick"):
+def run(pid, tier="quick", exclude=()):
     """returns (results, note).  results: list of dict(harness, file, tags, status, bounded, time_s,
     failed_checks, output)"""
-    files = [hf for hf in harness_files() if pid in hf["props"]]
+    files = [hf for hf in harness_files() if pid in hf["props"] and hf["name"] not in exclude]
     wanted = []
     for hf in files:
         for h in hf["harnesses"]:
@@ -142,6 +142,20 @@ def run(pid, tier="quick"):
             if "_last" in cur:
                 blocks[cur["_last"]].append(line)
         compile_failed = ("error: could not compile" in out) or ("Failed to execute cargo" in out)
+        if compile_failed and not exclude:
+            # a harness file that no longer compiles against the (changed) crate must not take the
+            # other files' harnesses with it: drop the files the compiler points at and run the rest
+            errblocks = [b for b in re.split(r"\n(?=(?:error|warning)\b)", out) if b.startswith("error")]
+            bad = set(re.findall(r"verif_harness/(\w+)\.rs", "\n".join(errblocks))) & {hf["name"] for hf in files}
+            if bad and len(bad) < len(files):
+                shutil.rmtree(scratch, ignore_errors=True)
+                rest, note2 = run(pid, tier, exclude=tuple(sorted(bad)))
+                reason = "harness file does not compile against this tree: " + "; ".join(re.findall(r"^error(?:\[E\d+\])?: (.*)$", out, re.M)[:3])
+                for hf, h in wanted:
+                    if hf["name"] in bad:
+                        rest.append(dict(harness=h["name"], file=hf["name"], tags=sorted(h["tags"]), status="undecided",
+                                         bounded=h["bounded"], time_s=0.0, failed_checks=[], output=out[-3000:], reason=reason, doc=h["doc"]))
+                return rest, (note2 or "") + " (harness files %s excluded: do not compile)" % ",".join(sorted(bad))
         for hf, h in wanted:
             full = None
             for k in blocks:
